@@ -40,6 +40,7 @@ def fam_targets(rng, tier):
     return fam
 
 
-FEATS = [{"period_filter"}, {"filter"}, set(), {"constraint"}, {"period_filter", "constraint"}, {"stochastic"}, {"mixed_discrete_choices", "filter"}]
+FEATS = [{"period_filter", "all_discrete_states"}, {"filter"}, set(), {"constraint", "all_discrete_states"}, {"period_filter", "constraint"}, {"stochastic"},
+         {"mixed_discrete_choices", "filter"}, {"period_filter", "all_discrete_states", "two_filters"}, {"int_utility"}]
 run = _sim.make("C06", 6, 24, ("C06", "C05"), extra_fams=[fam_targets], features=FEATS, on_grid_prob=0.75)
 matches_signature, replay_known, replay = _sim.matches_signature, _sim.replay_known, _sim.replay
